@@ -139,7 +139,9 @@ ASSUMPTIONS = [
     "python-scalar parameters (the documented representation) - for any other representation of b or of the parameters the oracle is "
     "'refuses, or returns a point that passes the dense optimality system evaluated with the float64 values' (solved or refused, never "
     "mis-solved); a second solve is only blamed on the history when the same step passes as a first solve on fresh equal objects "
-    "(otherwise the first-solve verdict of that step, reported by the cell whose family it belongs to, stands); ISTA / FISTA runs that "
+    "(otherwise the first-solve verdict of that step, reported by the cell whose family it belongs to, stands); a first solve in another "
+    "representation than float64 b / python scalars that fails is blamed on the representation only when the same values in the documented "
+    "representation are solved correctly (otherwise it only counts - the float64 cells report it); ISTA / FISTA runs that "
     "reach maxit (50000 / 200000) only count; a length-n threshold vector with equal entries is used for the parameter-as-array "
     "facet, so the scalar-strength oracle (complete active-set enumeration) applies unchanged",
     "restricted-domain LM cells: a residual that is not finite at a trial point is read as 'the trial point is outside the problem' - "
@@ -2053,10 +2055,13 @@ def _eval_reuse_lsq(cell, res):
             pgref[reg] = _exact_min(A, bf, "l1" if reg == "l1" else "box", lam if reg == "l1" else 0.0, lo, up)
         return pgref[reg]
 
-    def make():
-        o = {"A": _store(A, storage), "b": _as_rep(bf, brep), "x0": x0.copy(), "P": _P("lowertri", n, k),
-             "shift0": np.array(0.0) if arr else 0.0, "shift": np.array(0.5) if arr else 0.5,
-             "stepsize": np.array(t) if arr else t, "gamma": np.full(n, lam * t) if arr else None,
+    def make(default=False):
+        """A fresh set of argument objects; default=True: the same VALUES in the documented representation (float64 b, python
+        scalars) - the twin against which a representation is judged."""
+        ar = arr and not default
+        o = {"A": _store(A, storage), "b": _as_rep(bf, "float64" if default else brep), "x0": x0.copy(), "P": _P("lowertri", n, k),
+             "shift0": np.array(0.0) if ar else 0.0, "shift": np.array(0.5) if ar else 0.5,
+             "stepsize": np.array(t) if ar else t, "gamma": np.full(n, lam * t) if ar else None,
              "lower": lo.copy(), "upper": up.copy()}
         o["fun"] = _funform(o["A"])
         return o
@@ -2081,7 +2086,7 @@ def _eval_reuse_lsq(cell, res):
                 cuqi.config.MAX_DIM_INV = old
         adaptive = st["solver"] == "FISTA"
         if st["reg"] == "l1":
-            prox = (lambda z, g: ProximalL1(z, o["gamma"])) if arr else (lambda z, g: ProximalL1(z, lam * g))
+            prox = (lambda z, g: ProximalL1(z, o["gamma"])) if o["gamma"] is not None else (lambda z, g: ProximalL1(z, lam * g))
         else:
             prox = lambda z, g: ProjectBox(z, o["lower"], o["upper"])
         return FISTA(op, o["b"], o["x0"], prox, maxit=_pg_maxit(st), stepsize=o["stepsize"], abstol=1e-9 if adaptive else 1e-11,
@@ -2162,8 +2167,16 @@ def _eval_reuse_lsq(cell, res):
         elif v is None:
             res.count("first-solve-converged")
         else:
-            fail("C16|%s|%s|%s" % (comp(st), v[0], ffac), "%s, %s b (%s-valued), %s parameters, start %s: %s"
-                 % (key, brep, "integer" if cell["bval"] == "int" else "dyadic", par, cell["start"], v[1]), x=xa)
+            if not strict:
+                # representation facet: blamed only when the same values in the documented representation are solved correctly
+                # (otherwise it is not a representation matter; the float64 cells report it)
+                ts, tx, tit, _ = run(st, make(default=True))
+                if ts != "ok" or judge(st, tx, tit)[0] is not None:
+                    res.count("float64-twin-not-usable")
+                    continue
+            fail("C16|%s|%s|%s" % (comp(st), v[0], ffac), "%s, %s b (%s-valued), %s parameters, start %s: %s%s"
+                 % (key, brep, "integer" if cell["bval"] == "int" else "dyadic", par, cell["start"], v[1],
+                    "" if strict else " (the same values as float64 b with python-scalar parameters are solved correctly)"), x=xa)
 
     # ---- (2) histories on ONE set of argument objects: s1 -> solve() again; s1 -> s2
     for s1 in own:
